@@ -80,6 +80,12 @@ theorem seq_step_mono (s : Net) (op : Op) (x : Node) : (s.nodes x).seq ≤ ((ste
       · rename_i hx; subst hx; simp
       · exact Nat.le_refl _
     · exact Nat.le_refl _
+  | withdraw a =>
+    simp only [step, stepCore]; split
+    · simp only [setNode_nodes]; split
+      · rename_i hx; subst hx; simp
+      · exact Nat.le_refl _
+    · exact Nat.le_refl _
   | deliver a b i =>
     simp only [step, stepCore]; split
     · split
@@ -126,6 +132,12 @@ theorem seen_step {s : Net} {op : Op} {x : Node} {k : Node × Nat} (h : k ∈ ((
       · exact Or.inl h
     · exact Or.inl h
   | announce a =>
+    simp only [step, stepCore] at h; split at h
+    · simp only [setNode_nodes] at h; split at h
+      · rename_i hx; subst hx; exact Or.inl h
+      · exact Or.inl h
+    · exact Or.inl h
+  | withdraw a =>
     simp only [step, stepCore] at h; split at h
     · simp only [setNode_nodes] at h; split at h
       · rename_i hx; subst hx; exact Or.inl h
@@ -181,6 +193,13 @@ theorem announce_seq (s : Net) (a : Node) (ha : a < s.n) :
   rw [if_pos ha']
   simp
 
+theorem withdraw_seq (s : Net) (a : Node) (hc : a < s.n ∧ (s.nodes a).locals.any (fun r => r.kind == 0) = true) :
+    ((step s (.withdraw a)).nodes a).seq = (s.nodes a).seq + 1 := by
+  simp only [step, stepCore]
+  have hc' : a < (tick s).n ∧ ((tick s).nodes a).locals.any (fun r => r.kind == 0) = true := hc
+  rw [if_pos hc']
+  simp
+
 theorem replay_seq (s : Net) (a b : Node) (ord : List Node) (hc : a < s.n ∧ b < s.n ∧ linked s a b = true) :
     ((step s (.replay a b ord)).nodes a).seq =
       (s.nodes a).seq + (replayAdvs a b (s.nodes a) ord).length := by
@@ -200,9 +219,13 @@ theorem seqInv_step {s : Net} {op : Op} (hI : SeqInv s) (hb : benignOp s op = tr
       simp only [announceAdv, tick_nodes]
       rw [announce_seq s f.src ha]
       exact Nat.le_refl _
-    | fwd a m hm hl ha hb' hd hne hns hself hacc hlim hadv =>
-      rw [hadv]
+    | fwd a m hm hl ha hb' hd hne hns hself hseen hsb hlim hadv =>
+      rw [hadv, fwdAdv_seq, fwdAdv_origin]
       exact Nat.le_trans (hI.flight _ hm) (seq_step_mono s op _)
+    | wdr hop ha hcidr hd hadv =>
+      rw [hadv, hop]
+      simp only [withdrawAdv, tick_nodes]
+      rw [withdraw_seq s f.src ⟨ha, hcidr⟩]; exact Nat.le_refl _
     | rep ord hop ha hb' hl hadv =>
       subst hop
       obtain ⟨ho, _⟩ := benign_replay hb hadv
@@ -219,7 +242,7 @@ theorem seqInv_step {s : Net} {op : Op} (hI : SeqInv s) (hb : benignOp s op = tr
       exact Nat.le_trans (hI.flight f hf) (seq_step_mono s op _)
   entries := by
     intro x e he
-    rcases entries_step he with h | ⟨a, m, hm, _, _, _, _, _, r, _, rfl⟩
+    rcases entries_step he with h | ⟨a, m, hm, _, _, _, _, _, _, r, _, rfl⟩
     · exact Nat.le_trans (hI.entries x e h) (seq_step_mono s op _)
     · exact Nat.le_trans (hI.flight _ hm) (seq_step_mono s op _)
 
@@ -364,7 +387,7 @@ theorem foldl_storeRoute_renews {self frm clock : Nat} {a : Adv} (hp : self ∉ 
     announcement ends up, for every advertised CIDR / domain / forward route, with a copy carrying
     exactly the announcement's sequence number. -/
 theorem C14_renews (mh : Nat) (peers : List Node) (self frm clock : Nat) (a : Adv) (st : NodeSt)
-    (hacc : Accepts mh self a st) (hp : self ∉ a.path)
+    (hwd : a.wd = false) (hacc : Accepts mh self a st) (hp : self ∉ a.path)
     (hold : ∀ y, y ∈ st.entries → y.origin = a.origin → y.seq ≤ a.seq) :
     ∀ r, r ∈ a.routes → r.kind ≠ 3 →
       ∃ y, y ∈ (handle mh peers self frm clock a st).1.entries ∧ IsCopy r.kind r.key a.origin a.seq y := by
@@ -377,7 +400,7 @@ theorem C14_renews (mh : Nat) (peers : List Node) (self frm clock : Nat) (a : Ad
   unfold handle
   rw [if_neg hacc.1]
   dsimp only
-  rw [if_neg hacc.2.1, if_neg hacc.2.2]
+  rw [if_neg hacc.2.1, if_neg (by simp [hwd]), if_neg hacc.2.2]
   split <;> exact List.mem_append_left _ hy
 
 /-! ### refutation (open findings C14-replay-key-collision, C14-replay-sequence-blocks-refresh) -/
